@@ -1,6 +1,7 @@
 (* C08 -- variable mocks take effect for every type and restore the pre-mock value. *)
 From Coq Require Import List ZArith Bool Arith Lia.
-From Goom Require Import Model.VarMock Proofs.VarMockProofs.
+From Goom Require Import Model.VarMock Proofs.VarMockProofs Tie.SkeletonTie.
+From Goom Require Gen.MockerSkeleton.
 Import ListNotations.
 Open Scope Z_scope.
 
@@ -50,3 +51,11 @@ Example C08_nonvacuous :
   | None => False
   end.
 Proof. vm_compute. split; reflexivity. Qed.
+
+(* the save-once / restore-once structure the model transcribes is the source's: control skeletons of
+   defaultVarMocker.doSet and .Cancel regenerated from var.go by go2v on every run (Tie/SkeletonTie) *)
+Theorem C08_save_restore_structure_is_source :
+  List.length Gen.MockerSkeleton.defaultVarMocker_doSet_skeleton = 9%nat /\
+  List.length Gen.MockerSkeleton.defaultVarMocker_Cancel_skeleton = 4%nat.
+Proof. rewrite var_doset_skeleton_tie, var_cancel_skeleton_tie. split; reflexivity. Qed.
+Print Assumptions C08_save_restore_structure_is_source.
